@@ -1908,7 +1908,9 @@ def get_doc_str(node):
     :return: Docstring if found else None
     :rtype: ```Optional[str]```
     """
-    if isinstance(node, (ClassDef, FunctionDef)) and isinstance(node.body[0], Expr):
+    if isinstance(node, (AsyncFunctionDef, ClassDef, FunctionDef)) and isinstance(
+        node.body[0], Expr
+    ):
         val = get_value(node.body[0])
         if isinstance(val, (Constant, Str)):
             return get_value(val)
